@@ -284,7 +284,8 @@ def call_writer(case, snaps, fn=None):
         path = fn or FN_BY_REP[rep.get("fn", "default-name")]
         pr = rep.get("ppp", "array")
         pv = {"list": lambda: [int(x) for x in ppp], "tuple": lambda: tuple(int(x) for x in ppp),
-              "bool": lambda: ppp.astype(bool), "int32": lambda: ppp.astype(np.int32)}.get(pr, lambda: ppp)()
+              "bool": lambda: ppp.astype(bool), "int32": lambda: ppp.astype(np.int32),
+              "float64": lambda: ppp.astype(np.float64)}.get(pr, lambda: ppp)()
         kw = {"ppp": pv, "fnfile": path}
     if os.path.dirname(path):
         os.makedirs(os.path.dirname(path), exist_ok=True)
@@ -378,7 +379,7 @@ def ufrac_st(N, d):
     return hnp.arrays(np.float64, (N, d), elements=el, unique=True)
 
 
-PPP_REPS = ["array", "array", "array", "list", "tuple", "bool", "int32"]
+PPP_REPS = ["array", "array", "array", "list", "tuple", "bool", "int32", "float64"]
 TYPE_DTYPES = ["int64", "int64", "int32", "uint32", "uint8"]          # the GSD reader delivers uint32 labels
 FN_REPS = ["default-name", "default-name", "default-name", "custom", "subdir"]
 PRIOR = ["none"] * 5 + ["other-object", "same-object-inplace"]
@@ -408,6 +409,41 @@ def permuted_cell(cell, ax):
     return dict(cell, kind="general", H=np.asarray(cell["H"])[ax][:, ax], lo=np.asarray(cell["lo"])[ax])
 
 
+def oblique_compact(rng, H, N, ppp):
+    """N relative positions inside a Chebyshev box of edge 0.97 w, w = half the smallest perpendicular width of the cell:
+    EVERY pair of the configuration is short in every Cartesian component, yet pairs between the two sub-clusters at
+    opposite oblique corners have a fractional coordinate beyond 1/2 along a periodic axis of a tilted cell (EXTENSION_3
+    class 4: a "nothing to fold" short-cut that looks at the whole batch positions - positions[i])."""
+    d = H.shape[0]
+    Hinv = np.linalg.inv(H)
+    w = 0.5 / np.sqrt((Hinv * Hinv).sum(axis=0)).max()
+    reach = w * np.abs(Hinv).sum(axis=0) * (np.asarray(ppp) > 0)
+    k = int(np.argmax(reach))
+    corner = 0.97 * w * np.where(Hinv[:, k] >= 0, 1.0, -1.0)
+    which = rng.integers(0, 3, N)
+    u = rng.random((N, d))
+    t = np.where(which[:, None] == 0, 0.05 * u, np.where(which[:, None] == 1, 1.0 - 0.05 * u, u))
+    return t * corner[None, :]
+
+
+def whole_config_short(case):
+    """True when every pair of some frame is short in every Cartesian component (below half the smallest perpendicular
+    width) while some pair of it has a periodic fractional coordinate beyond 1/2."""
+    per = np.asarray(case["ppp"]) > 0
+    hit = False
+    for p, c in zip(case["pos"], frame_cells(case)):
+        H = np.asarray(c["H"], dtype=float)
+        Hinv = np.linalg.inv(H)
+        w = 0.5 / np.sqrt((Hinv * Hinv).sum(axis=0)).max()
+        p = np.asarray(p, dtype=float)
+        if np.any(p.max(axis=0) - p.min(axis=0) >= w):
+            continue
+        f = p @ Hinv
+        span = f.max(axis=0) - f.min(axis=0)
+        hit = hit or bool(np.any(span[per] > 0.5 + 1e-6))
+    return hit
+
+
 OFFS = ["inside", "inside", "near", "near", "far3", "far8", "far50"]
 
 
@@ -419,10 +455,15 @@ def conf_st(draw, nmin=3, nmax=40, frames=(1, 4), K=None, kmax=3, lmin=1.0, lmax
     cell = draw(cell_st(d, "tri" if sheared else "any", lmin=lmin, lmax=lmax))
     K_ = K if K is not None else draw(st.integers(1, kmax))
     nmin = max(nmin, K_)
-    kind = draw(st.sampled_from(["gas", "gas", "lattice", "cluster"]))
+    kind = draw(st.sampled_from(["gas", "gas", "lattice", "cluster"] + (["oblique"] if cell["kind"] == "tri" else [])))
+    ppp = draw(ppp_st(d))
     if kind == "lattice":
         f0, kind = draw(frac_config_st(d, nmin=max(3, K_), nmax=nmax, kinds=("lattice",),
                                        exact_lattice=cell["kind"] == "ortho"))
+    elif kind == "oblique":
+        N = draw(st.integers(max(3, nmin), nmax))
+        rng = np.random.default_rng(draw(st.integers(0, 2 ** 32 - 1)))
+        f0 = (draw(ufrac_st(1, d)) @ cell["H"] + oblique_compact(rng, cell["H"], N, ppp)) @ np.linalg.inv(cell["H"])
     elif kind == "cluster":
         N = draw(st.integers(max(3, nmin), nmax))
         nc = draw(st.integers(1, 3))
@@ -441,10 +482,14 @@ def conf_st(draw, nmin=3, nmax=40, frames=(1, 4), K=None, kmax=3, lmin=1.0, lmax
             fr.append(draw(ufrac_st(N, d)))
         else:
             fr.append((f0 + draw(st.sampled_from([0.01, 0.05])) * (2.0 * draw(ufrac_st(N, d)) - 1.0)) % 1.0)
-    ppp = draw(ppp_st(d))
+    # frame schedules: a frame written twice (the same configuration again), timesteps that repeat or go back: one
+    # list per frame in file order whatever the time stamps say
+    schedule = draw(st.sampled_from(["increasing", "increasing", "increasing", "repeated-frame", "timesteps-back"])) if T >= 2 else "increasing"
+    if schedule == "repeated-frame":
+        fr[draw(st.integers(1, T - 1))] = fr[0].copy()
     # where the particles are relative to the cell: wrapped, one image outside, or unwrapped coordinates several cell
     # lengths apart (xu yu zu of a long run: a single-image fold is not the minimum image)
-    offclass = draw(st.sampled_from(OFFS))
+    offclass = draw(st.sampled_from(OFFS + (["inside"] * 12 if kind == "oblique" else [])))
     offs = np.zeros((N, d))
     if offclass != "inside":
         amp = {"near": 1, "far3": 3, "far8": 8, "far50": 50}[offclass]
@@ -466,7 +511,7 @@ def conf_st(draw, nmin=3, nmax=40, frames=(1, 4), K=None, kmax=3, lmin=1.0, lmax
             Hk = cells[-1]["H"].copy()  # make the shear real: xy moved by 0.3 lx, folded back into [-lx/2, lx/2)
             Hk[1, 0] = ((cell["H"][1, 0] / L[0] + 0.3 + 0.5) % 1.0 - 0.5) * L[0]
             cells[-1] = dict(cell, H=Hk)
-    elif cell["kind"] == "tri" and not sheared and draw(st.integers(0, 3)) == 0:
+    elif cell["kind"] == "tri" and not sheared and kind != "oblique" and draw(st.integers(0, 3)) == 0:
         # a tilted cell with permuted axes (general cell matrix; the mask is drawn for the permuted axes)
         ax = draw(st.permutations(range(d)))
         if list(ax) != list(range(d)):
@@ -476,8 +521,12 @@ def conf_st(draw, nmin=3, nmax=40, frames=(1, 4), K=None, kmax=3, lmin=1.0, lmax
     types = draw(types_st(N, K_))
     t0 = draw(st.integers(0, 10 ** 6))
     dt = draw(st.integers(1, 5000))
+    steps = [t0 + k * dt for k in range(T)]
+    if schedule == "timesteps-back":
+        steps = [steps[k] for k in draw(st.permutations(range(T)))]
+        steps[-1] = steps[0] if draw(st.booleans()) else steps[-1]
     out = {"d": d, "cell": cell, "pos": pos, "types": types, "ppp": ppp, "K": K_, "kind": kind,
-           "timesteps": [t0 + k * dt for k in range(T)], "outside": bool(np.any(offs)),
+           "timesteps": steps, "outside": bool(np.any(offs)), "schedule": schedule,
            "offs": offclass if np.any(offs) else "inside"}
     if cells:
         out["cells"] = cells
@@ -592,6 +641,16 @@ FRAMES_B = [31, 32, 33, 49, 50, 51, 63, 64, 65, 99, 100, 101, 127, 128, 129]
 NNN_B = [1, 2, 12, 31, 32, 33, 63, 64, 65, 99, 100, 101, 127, 128, 129, 199, 200, 201, 255, 256]
 
 
+def mixed_rng(seed, *parts):
+    """numpy generator seeded by a Hypothesis-drawn integer AND everything drawn before it.  Hypothesis derives many of
+    its examples from earlier ones by copying parts of the choice sequence, so a bare seed repeats within a run and
+    the sizes / styles taken from the generator come in clumps; hashing the earlier draws into the seed makes every
+    distinct example a distinct stream.  Deterministic; the case stores the arrays, so replays do not depend on it."""
+    import hashlib
+    h = hashlib.sha1(repr([np.asarray(x).tolist() if isinstance(x, np.ndarray) else x for x in parts]).encode()).digest()
+    return np.random.default_rng([int(seed)] + [int.from_bytes(h[i:i + 4], "little") for i in range(0, 16, 4)])
+
+
 def bulk_frac(rng, N, d, style):
     """Fractional coordinates of an inhomogeneous configuration (numpy generator seeded by Hypothesis)."""
     if style == "gas":
@@ -640,10 +699,11 @@ def bulk_st(draw, sizes, styles, many_frames=False, dims=(2, 3), writers=("nn", 
     d = draw(st.sampled_from(list(dims)))
     cell = draw(cell_st(d, "any", lmin=5.0, lmax=20.0))
     kind = draw(st.sampled_from(list(writers)))
+    ppp = draw(ppp_st(d))
     # the size and the style are taken from the seeded generator, not from separate Hypothesis draws: Hypothesis
     # clumps `sampled_from` heavily within a few dozen cases (measured: 128/129 fifteen times, 255..258 once), while
     # every boundary value has to be populated in every run
-    rng = np.random.default_rng(draw(st.integers(0, 2 ** 32 - 1)))
+    rng = mixed_rng(draw(st.integers(0, 2 ** 32 - 1)), d, cell["H"], cell["lo"], kind, ppp)
     style = str(rng.choice(styles))
     if many_frames and rng.integers(0, 6) == 0:
         # frames per file at the boundaries, tiny frames
@@ -653,7 +713,6 @@ def bulk_st(draw, sizes, styles, many_frames=False, dims=(2, 3), writers=("nn", 
     else:
         N = int(rng.choice(sizes)) if isinstance(sizes, list) else int(rng.integers(sizes[0], sizes[1] + 1))
         T = 1 if N > 130 or rng.integers(0, 4) else 2
-    ppp = draw(ppp_st(d))
     if cell["kind"] == "tri" and draw(st.integers(0, 4)) == 0:
         ax = draw(st.permutations(range(d)))
         if list(ax) != list(range(d)):
@@ -663,7 +722,13 @@ def bulk_st(draw, sizes, styles, many_frames=False, dims=(2, 3), writers=("nn", 
     if offclass != "inside":
         amp = {"near": 1, "far8": 8}[offclass]
         offs = rng.integers(-amp, amp + 1, (N, d)).astype(float) * ppp
-    fr = [bulk_frac(rng, N, d, style) for _ in range(T)]
+    if style == "oblique" and cell["kind"] == "ortho":
+        style = "clusters"
+    if style == "oblique":
+        Hinv = np.linalg.inv(cell["H"])
+        fr = [(rng.random(d) @ cell["H"] + oblique_compact(rng, cell["H"], N, ppp)) @ Hinv for _ in range(T)]
+    else:
+        fr = [bulk_frac(rng, N, d, style) for _ in range(T)]
     K = min(N, draw(st.integers(1, 4))) if kind == "type" else 1
     types = np.concatenate([np.arange(1, K + 1), rng.integers(1, K + 1, N - K)])[rng.permutation(N)].astype(int)
     c = {"d": d, "cell": cell, "pos": [cell["lo"] + (f + offs) @ cell["H"] for f in fr], "types": types, "ppp": ppp, "K": K,
@@ -784,6 +849,10 @@ def check_writer(case):
             "sheared" if case.get("cells") else "fixed-cell", "w-" + kind]
     if N in SIZES_QUICK or N in SIZES_THOROUGH:
         tags.append(f"size-boundary-{N}")
+    if case.get("schedule", "increasing") != "increasing":
+        tags.append("schedule-" + case["schedule"])
+    if case["cell"]["kind"] != "ortho" and whole_config_short(case):
+        tags.append("whole-config-short-but-beyond-half-cell")
     tags += rep_tags(case)
     if kind == "nn":
         nnn = int(case["nnn"])
@@ -1300,8 +1369,13 @@ def reader_bulk_st(draw):
     frames are read in sequence from one handle.  Bulk contents from numpy's generator seeded by Hypothesis; the case
     stores the arrays."""
     kind = draw(st.sampled_from(["neigh", "neigh", "weight"]))
+    style = draw(text_style_st())
+    header = draw(st.sampled_from(N_HEADERS if kind == "neigh" else W_HEADERS))
+    fmt = draw(st.sampled_from(W_FORMATS))
+    kw = draw(st.booleans())
+    intrep = draw(st.sampled_from(["int", "int", "np.int64", "np.int32"]))
     # axis and sizes from the seeded generator (every boundary value populated in every run, see bulk_st)
-    rng = np.random.default_rng(draw(st.integers(0, 2 ** 32 - 1)))
+    rng = mixed_rng(draw(st.integers(0, 2 ** 32 - 1)), kind, sorted(style.items(), key=str), header, fmt, kw, intrep)
     axis = str(rng.choice(["rows", "frames", "cn", "cn"]))
     if axis == "rows":
         N = int(rng.choice(ROWS_B))
@@ -1338,10 +1412,8 @@ def reader_bulk_st(draw):
         nmaxs.append(draw(st.sampled_from(["default", "default", 1, max(1, mc - 1), max(1, mc), mc + 1] + NMAX_B)))
     if axis == "frames" and draw(st.booleans()):
         nmaxs = [nmaxs[0]] * F       # the documented loop: the same Nmax for every frame
-    return {"axis": axis, "kind": kind, "N": N, "frames": frames, "nmaxs": nmaxs,
-            "header": draw(st.sampled_from(N_HEADERS if kind == "neigh" else W_HEADERS)),
-            "fmt": draw(st.sampled_from(W_FORMATS)), "style": draw(text_style_st()),
-            "kw": draw(st.booleans())}
+    return {"axis": axis, "kind": kind, "N": N, "frames": frames, "nmaxs": nmaxs, "header": header, "fmt": fmt,
+            "style": style, "kw": kw, "intrep": intrep}
 
 
 def check_reader_bulk(case):
@@ -1360,17 +1432,20 @@ def check_reader_bulk(case):
     kept = []
     cn_varies = False
     tags = ["axis-" + case["axis"], "kind-" + kind] + style_tags(style)
+    asint = {"np.int64": np.int64, "np.int32": np.int32}.get(case.get("intrep", "int"), int)      # same values (probed)
+    if asint is not int:
+        tags.append("counts-" + case["intrep"])
     with open(name, "r", encoding="utf-8", newline=style.get("newline")) as f:
         for k, fr in enumerate(enc):
             nm = case["nmaxs"][k]
             if nm == "default":
-                got = read_neighbors(f, N)
+                got = read_neighbors(f, asint(N))
                 nmax = 200
             elif case["kw"]:
-                got = read_neighbors(f=f, nparticle=N, Nmax=int(nm))
+                got = read_neighbors(f=f, nparticle=asint(N), Nmax=asint(nm))
                 nmax = int(nm)
             else:
-                got = read_neighbors(f, N, int(nm))
+                got = read_neighbors(f, asint(N), asint(nm))
                 nmax = int(nm)
             what = f"bulk read of frame {k} of {F} ({N} rows, Nmax={nmax})"
             compare_read(what, got, fr["rows"], N, nmax, kind == "neigh")
@@ -1436,7 +1511,7 @@ FACETS = [
     Facet("size_boundary_large", bulk_st(SIZES_THOROUGH, ["gas", "gas", "clusters"]), check_writer,
           quick=0, thorough=320, describe=describe_writer, thorough_budget_s=1500.0,
           rule="thorough tier only: particle numbers 499..501, 511..513, 999..1001, 1023..1025"),
-    Facet("inhomogeneous", bulk_st((150, 400), ["clusters", "clusters", "droplet", "droplet", "void", "slab"], dims=(2, 2, 3),
+    Facet("inhomogeneous", bulk_st((150, 400), ["clusters", "clusters", "droplet", "droplet", "void", "slab", "oblique"], dims=(2, 2, 3),
                                    writers=("nn", "nn", "cut", "type")), check_writer,
           quick=160, thorough=8000, describe=describe_writer, shards_quick=4, quick_budget_s=BUD,
           rule="all three writers on strongly inhomogeneous systems of 150..400 particles (clusters in a dilute background, "
